@@ -33,7 +33,7 @@ def main():
     for d in dirs:
         for patch in sorted(d.glob("patch*.diff")):
             name = f"{d.name}/{patch.name}"
-            a = sh("git", "-C", "/repo", "apply", str(patch))
+            a = sh("git", "-C", "/repo", "apply", str(patch.resolve()))
             if a.returncode != 0:
                 rows.append((name, "DOES-NOT-APPLY", a.stderr.strip()[:100]))
                 continue
